@@ -76,7 +76,10 @@ impl Scenario {
     }
     fn bound(&self, tier: Tier) -> Option<usize> {
         // experiment override (not used by the driver)
-        if let Some(b) = std::env::var("VERIF_LOOMMC_BOUND").ok().and_then(|s| s.parse::<usize>().ok()) {
+        if let Some(b) = std::env::var("VERIF_LOOMMC_BOUND")
+            .ok()
+            .and_then(|s| s.parse::<usize>().ok())
+        {
             return if b >= 100 { None } else { Some(b) };
         }
         let b = match self.bounds {
@@ -153,9 +156,16 @@ fn install_panic_hook() {
         } else {
             "panic (non-string payload)".to_string()
         };
-        let loc = info.location().map(|l| format!("{}:{}", l.file(), l.line())).unwrap_or_default();
+        let loc = info
+            .location()
+            .map(|l| format!("{}:{}", l.file(), l.line()))
+            .unwrap_or_default();
         // the line the parent parses when the process later aborts
-        eprintln!("[loommc-panic] {} @ {}", msg.lines().next().unwrap_or(""), loc);
+        eprintln!(
+            "[loommc-panic] {} @ {}",
+            msg.lines().next().unwrap_or(""),
+            loc
+        );
         let mut g = FIRST_PANIC.lock().unwrap_or_else(|e| e.into_inner());
         if g.is_none() {
             let bt = std::backtrace::Backtrace::force_capture().to_string();
@@ -164,14 +174,22 @@ fn install_panic_hook() {
                 let l = l.trim();
                 // "12: s2n_quic_core::sync::spsc::state::State<T>::close"
                 if let Some((_, sym)) = l.split_once(": ") {
-                    if (sym.contains("s2n_quic") || sym.starts_with("loom::") || sym.starts_with("<loom::"))
+                    if (sym.contains("s2n_quic")
+                        || sym.starts_with("loom::")
+                        || sym.starts_with("<loom::"))
                         && !sym.contains("verif_loommc::support")
                         && !sym.contains("{{closure}}")
                     {
                         let sym = sym.to_string();
                         let is_loom = !sym.contains("s2n_quic");
-                        let loom_frames = frames.iter().filter(|f: &&String| !f.contains("s2n_quic")).count();
-                        if frames.last() != Some(&sym) && frames.len() < 16 && !(is_loom && loom_frames >= 3) {
+                        let loom_frames = frames
+                            .iter()
+                            .filter(|f: &&String| !f.contains("s2n_quic"))
+                            .count();
+                        if frames.last() != Some(&sym)
+                            && frames.len() < 16
+                            && !(is_loom && loom_frames >= 3)
+                        {
                             frames.push(sym);
                         }
                     }
@@ -225,7 +243,13 @@ fn s2n_frames(frames: &str) -> String {
         .join("<")
 }
 
-fn mk_violation(scn: &Scenario, tier: Tier, first_line: &str, detail_extra: &str, execution: u64) -> Violation {
+fn mk_violation(
+    scn: &Scenario,
+    tier: Tier,
+    first_line: &str,
+    detail_extra: &str,
+    execution: u64,
+) -> Violation {
     let clause = format!("loom.{}", scn.name);
     let mut v = Violation::new(&clause, format!("{}{}", first_line, detail_extra));
     v.fingerprint = format!("{}|{}|{}", ENGINE, scn.name, normalise(first_line));
@@ -242,10 +266,13 @@ fn mk_violation(scn: &Scenario, tier: Tier, first_line: &str, detail_extra: &str
         .set("family", scn.family)
         .set("scenario", scn.name)
         .set("test", test_path(scn))
-        .set("preemption_bound", match scn.bound(tier) {
-            Some(b) => Json::Int(b as i128),
-            None => Json::Null,
-        })
+        .set(
+            "preemption_bound",
+            match scn.bound(tier) {
+                Some(b) => Json::Int(b as i128),
+                None => Json::Null,
+            },
+        )
         .set("failing_execution", execution)
         .set("config", scn.config.clone());
     v
@@ -261,7 +288,11 @@ fn wall_cap(scn: &Scenario, tier: Tier) -> u64 {
 
 fn test_path(scn: &Scenario) -> String {
     // "s2n_quic_core::sync::verif_loommc" -> "sync::verif_loommc::<name>"
-    let m = scn.module.split_once("::").map(|(_, rest)| rest).unwrap_or("");
+    let m = scn
+        .module
+        .split_once("::")
+        .map(|(_, rest)| rest)
+        .unwrap_or("");
     if m.is_empty() {
         scn.name.to_string()
     } else {
@@ -270,7 +301,8 @@ fn test_path(scn: &Scenario) -> String {
 }
 
 fn out_dir() -> String {
-    std::env::var("VERIF_OUT_DIR").unwrap_or_else(|_| format!("{}/loommc-out", std::env::temp_dir().display()))
+    std::env::var("VERIF_OUT_DIR")
+        .unwrap_or_else(|_| format!("{}/loommc-out", std::env::temp_dir().display()))
 }
 
 // ---------------------------------------------------------------------------------------------
@@ -309,8 +341,13 @@ fn run_model(scn: &Scenario, tier: Tier, model: impl Fn() + Send + Sync + 'stati
     rep.executions = execs;
     rep.max_depth = bound.unwrap_or(0) as u64;
     let bound_txt = match bound {
-        Some(b) => format!("all interleavings and C11 load outcomes with <= {} preemptions (loom DPOR)", b),
-        None => "all interleavings and C11 load outcomes, no preemption bound (loom DPOR)".to_string(),
+        Some(b) => format!(
+            "all interleavings and C11 load outcomes with <= {} preemptions (loom DPOR)",
+            b
+        ),
+        None => {
+            "all interleavings and C11 load outcomes, no preemption bound (loom DPOR)".to_string()
+        }
     };
     {
         let set = OUTCOMES.lock().unwrap_or_else(|e| e.into_inner());
@@ -318,7 +355,11 @@ fn run_model(scn: &Scenario, tier: Tier, model: impl Fn() + Send + Sync + 'stati
         let n = set.len();
         for (i, o) in set.iter().enumerate() {
             if i == 0 || i == n / 2 || i + 1 == n {
-                rep.samples.push(Json::obj().set("scenario", scn.name).set("outcome", o.as_str()));
+                rep.samples.push(
+                    Json::obj()
+                        .set("scenario", scn.name)
+                        .set("outcome", o.as_str()),
+                );
             }
         }
     }
@@ -329,14 +370,20 @@ fn run_model(scn: &Scenario, tier: Tier, model: impl Fn() + Send + Sync + 'stati
             let capped = wall >= max_duration && (execs + 1) % interval as u64 == 0;
             if capped {
                 rep.exhaustive = false;
-                rep.cap_hit = Some(format!("max_duration {}s hit after {} executions", max_duration.as_secs(), execs));
-                rep.completed_bound = Some(format!("INCOMPLETE: {} (stopped by wall cap)", bound_txt));
+                rep.cap_hit = Some(format!(
+                    "max_duration {}s hit after {} executions",
+                    max_duration.as_secs(),
+                    execs
+                ));
+                rep.completed_bound =
+                    Some(format!("INCOMPLETE: {} (stopped by wall cap)", bound_txt));
             } else {
                 rep.completed_bound = Some(bound_txt);
             }
             let after = *AFTER.lock().unwrap_or_else(|e| e.into_inner());
             if let Some(msg) = after.and_then(|f| f()) {
-                rep.violations.push(mk_violation(scn, tier, &msg, " [after-run check]", execs));
+                rep.violations
+                    .push(mk_violation(scn, tier, &msg, " [after-run check]", execs));
             }
         }
         Err(_) => {
@@ -347,19 +394,36 @@ fn run_model(scn: &Scenario, tier: Tier, model: impl Fn() + Send + Sync + 'stati
                 .unwrap_or_else(|| ("panic (not captured)".into(), String::new(), Vec::new()));
             let first = msg.lines().next().unwrap_or("").to_string();
             if first.contains("exceeded maximum number of branches") {
-                rep.cap_hit = Some(format!("max_branches {} exceeded in execution {}", scn.max_branches, execs));
+                rep.cap_hit = Some(format!(
+                    "max_branches {} exceeded in execution {}",
+                    scn.max_branches, execs
+                ));
             }
-            let extra = format!(" @ {} [execution {}; via {}]", loc, execs, frames.join(" <- "));
-            rep.violations.push(mk_violation(scn, tier, &first, &extra, execs));
+            let extra = format!(
+                " @ {} [execution {}; via {}]",
+                loc,
+                execs,
+                frames.join(" <- ")
+            );
+            rep.violations
+                .push(mk_violation(scn, tier, &first, &extra, execs));
             rep.exhaustive = false;
-            rep.completed_bound = Some(format!("stopped at first failing execution ({}); {}", execs, bound_txt));
+            rep.completed_bound = Some(format!(
+                "stopped at first failing execution ({}); {}",
+                execs, bound_txt
+            ));
             rep.extra.push(("x_panic_message".into(), Json::Str(msg)));
-            rep.extra.push(("x_panic_frames".into(), Json::Arr(frames.into_iter().map(Json::Str).collect())));
+            rep.extra.push((
+                "x_panic_frames".into(),
+                Json::Arr(frames.into_iter().map(Json::Str).collect()),
+            ));
         }
     }
     rep.extra.push(("config".into(), scn.config.clone()));
-    rep.extra.push(("x_scenario".into(), Json::Str(scn.name.into())));
-    rep.extra.push(("x_max_branches".into(), Json::Int(scn.max_branches as i128)));
+    rep.extra
+        .push(("x_scenario".into(), Json::Str(scn.name.into())));
+    rep.extra
+        .push(("x_max_branches".into(), Json::Int(scn.max_branches as i128)));
     rep.wall_s = wall.as_secs_f64();
     rep
 }
@@ -390,7 +454,11 @@ pub fn run(scn: Scenario, model: impl Fn() + Send + Sync + 'static) {
             let want = std::fs::read_to_string(&path)
                 .ok()
                 .and_then(|s| Json::parse(&s).ok())
-                .and_then(|j| j.get("scenario").and_then(|s| s.as_str()).map(|s| s.to_string()));
+                .and_then(|j| {
+                    j.get("scenario")
+                        .and_then(|s| s.as_str())
+                        .map(|s| s.to_string())
+                });
             if want.as_deref() != Some(scn.name) {
                 return;
             }
@@ -412,7 +480,13 @@ pub fn run(scn: Scenario, model: impl Fn() + Send + Sync + 'static) {
     let exe = std::env::current_exe().expect("current_exe");
     let t0 = Instant::now();
     let mut child = std::process::Command::new(exe)
-        .args([test_path(&scn).as_str(), "--exact", "--nocapture", "--test-threads", "1"])
+        .args([
+            test_path(&scn).as_str(),
+            "--exact",
+            "--nocapture",
+            "--test-threads",
+            "1",
+        ])
         .env("VERIF_LOOMMC_CHILD", scn.name)
         .env("VERIF_OUT_DIR", &dir)
         .env("RUST_BACKTRACE", "0")
@@ -473,15 +547,31 @@ pub fn run(scn: Scenario, model: impl Fn() + Send + Sync + 'static) {
         rep.max_depth = scn.bound(tier).unwrap_or(0) as u64;
         rep.wall_s = t0.elapsed().as_secs_f64();
         rep.extra.push(("config".into(), scn.config.clone()));
-        rep.extra.push(("x_scenario".into(), Json::Str(scn.name.into())));
+        rep.extra
+            .push(("x_scenario".into(), Json::Str(scn.name.into())));
         if timed_out {
             rep.cap_hit = Some(format!("child killed after {}s", hard.as_secs()));
-            let mut v = Violation::new("machinery.timeout", format!("scenario {} did not finish within {}s", scn.name, hard.as_secs()));
+            let mut v = Violation::new(
+                "machinery.timeout",
+                format!(
+                    "scenario {} did not finish within {}s",
+                    scn.name,
+                    hard.as_secs()
+                ),
+            );
             v.fingerprint = format!("{}|{}|timeout", ENGINE, scn.name);
             rep.violations.push(v);
         } else {
-            let frames = stderr.lines().find_map(|l| l.strip_prefix("[loommc-frames] ")).unwrap_or("");
-            let tail: Vec<&str> = stderr.lines().filter(|l| !l.starts_with("[loommc-frames]")).rev().take(4).collect();
+            let frames = stderr
+                .lines()
+                .find_map(|l| l.strip_prefix("[loommc-frames] "))
+                .unwrap_or("");
+            let tail: Vec<&str> = stderr
+                .lines()
+                .filter(|l| !l.starts_with("[loommc-frames]"))
+                .rev()
+                .take(4)
+                .collect();
             let extra = format!(
                 " @ {} [process aborted, status {:?}; via {}; stderr tail: {}]",
                 loc,
@@ -490,7 +580,13 @@ pub fn run(scn: Scenario, model: impl Fn() + Send + Sync + 'static) {
                 tail.into_iter().rev().collect::<Vec<_>>().join(" / ")
             );
             rep.completed_bound = Some("process aborted in a failing execution".into());
-            rep.violations.push(mk_violation(&scn, tier, &format!("process aborted: {}", msg), &extra, 0));
+            rep.violations.push(mk_violation(
+                &scn,
+                tier,
+                &format!("process aborted: {}", msg),
+                &extra,
+                0,
+            ));
         }
         write_report(&dir, scn.name, rep);
     }
@@ -503,13 +599,26 @@ pub fn run(scn: Scenario, model: impl Fn() + Send + Sync + 'static) {
         .and_then(|j| j.get("reports").and_then(|r| r.as_arr()).cloned())
         .map(|rs| {
             rs.iter()
-                .flat_map(|r| r.get("violations").and_then(|v| v.as_arr()).cloned().unwrap_or_default())
-                .filter_map(|v| v.get("detail").and_then(|d| d.as_str()).map(|s| s.to_string()))
+                .flat_map(|r| {
+                    r.get("violations")
+                        .and_then(|v| v.as_arr())
+                        .cloned()
+                        .unwrap_or_default()
+                })
+                .filter_map(|v| {
+                    v.get("detail")
+                        .and_then(|d| d.as_str())
+                        .map(|s| s.to_string())
+                })
                 .collect::<Vec<_>>()
         })
         .unwrap_or_default();
     if std::env::var("VERIF_REPLAY").is_ok() {
-        eprintln!("replay: {} {}", if viol.is_empty() { "ok" } else { "VIOLATED" }, scn.name);
+        eprintln!(
+            "replay: {} {}",
+            if viol.is_empty() { "ok" } else { "VIOLATED" },
+            scn.name
+        );
     }
     if !viol.is_empty() {
         panic!("loommc scenario {} VIOLATED: {}", scn.name, viol[0]);
@@ -543,7 +652,12 @@ pub mod drops {
             let d = DROPPED[i].load(Ordering::Relaxed);
             assert!(c <= 1, "{}: harness created item {} {} times", what, i, c);
             assert!(d <= c, "{}: item {} dropped {} times but created {} times (double drop / drop of unwritten slot)", what, i, d, c);
-            assert!(d == c, "{}: item {} was created but never dropped (leak)", what, i);
+            assert!(
+                d == c,
+                "{}: item {} was created but never dropped (leak)",
+                what,
+                i
+            );
         }
     }
 
@@ -560,7 +674,11 @@ pub mod drops {
     impl Drop for Item {
         fn drop(&mut self) {
             // an index outside the table is a slot that was never written (poison / garbage)
-            assert!((self.0 as usize) < MAX, "dropping an item with garbage index {:#x} (unwritten or freed slot)", self.0);
+            assert!(
+                (self.0 as usize) < MAX,
+                "dropping an item with garbage index {:#x} (unwritten or freed slot)",
+                self.0
+            );
             DROPPED[self.0 as usize].fetch_add(1, Ordering::Relaxed);
         }
     }
